@@ -70,7 +70,7 @@ CHECKS['C06'] = dict(engine='W-loop', level='exploration', design='5/C06',
    text='seeded search over value-plumbing scenarios executed as eight identical rounds in one driver life: a user object and two helper objects build arrays, mappings, strings, buffers, class instances, function pointers (plain, bound arguments, functional, anonymous), nested and self-referencing containers and cloned objects, keep them in variables, in each other, in other objects, in pending call_outs (by name and by function pointer) and input_to carry-over arguments, pass them through copying/sorting/filtering/mapping/printing/saving efuns, operators, foreach, catch/throw and erroring callbacks, share one value between more than 65535 holders, optionally with an LPC error injected at the same instruction of every round; each round ends by clearing, removing or firing the callbacks and destructing what it created. Oracle: live heap bytes (sanitizer allocator) must not grow round after round over rounds 5-8 and object/program counts must be back; values read back must be intact and identical in every round; AddressSanitizer reports use-after-free/double free. Sampling, not proof.',
    note='leaks that grow less than one allocation per round, or only on paths the op alphabet does not reach, are not seen; the driver statistics counters (arrays, malloced strings) drift on the unchanged tree while the heap stays level and are therefore reported as a probe only',
    technique='deterministic simulation with fault injection (conservation by slope over repeated rounds in one simulated driver life, injected LPC errors, sanitizer as use-after-free oracle)')
-PENDING = 'check not built yet (work in progress, see DESIGN.md section 10)'
+PENDING = 'check not built (designed in DESIGN.md section 5, status in section 11.7); not claimed'
 
 def main():
     checks = []
